@@ -181,6 +181,7 @@ def layer(self, start=None, end=None, value=None, frame=None):
     _check_args_dtypes(start, end)  # conversion to Series required before checking
     df = pd.concat([start, end], axis=1, ignore_index=True)
     start_series = pd.Series(value, index=df.iloc[:, 0])
+    existing_deltas = None if self._data is None else self._get_deltas()
     self.initial_value += start_series[start_series.index.isna()].sum()
     if self._data is None:
         to_concat = [
@@ -191,7 +192,7 @@ def layer(self, start=None, end=None, value=None, frame=None):
         to_concat = [
             start_series,
             pd.Series(-value, index=df.iloc[:, 1]),
-            self._get_deltas(),
+            existing_deltas,
         ]
     deltas = pd.concat(to_concat)
 
